@@ -179,10 +179,17 @@ EDGE_PAIRS = [(k, k) for k in EDGE_KINDS] + [
 
 def _edge_op(kind, items, i, ci):
     fn = "act%d.c" % i
-    if kind == "pf-default":
-        return {"op": "parse_file", "filename": fn, "items": items, "default_parser": True, "use_cpp": bool(ci % 3 == 0)}
-    if kind == "pf-own":
-        return {"op": "parse_file", "filename": fn, "items": items, "obj": "P0" if ci % 2 else "P1", "use_cpp": bool(ci % 3 == 0)}
+    if kind in ("pf-default", "pf-own"):
+        op = {"op": "parse_file", "filename": fn, "items": items, "use_cpp": bool(ci % 3 == 0)}
+        if kind == "pf-default":
+            op["default_parser"] = True
+        else:
+            op["obj"] = "P0" if ci % 2 else "P1"
+        if ci % 2:
+            op["encoding"] = "utf-8"
+        if ci % 4 < 2:
+            op["filename"] = "d%d/unit.c" % i  # same base name, different directories
+        return op
     if kind == "parse-sim":
         return {"op": "parse", "filename": fn, "items": items, "obj": "P1"}
     if kind == "parse-plain":
